@@ -17,6 +17,8 @@ def actOfName (name : String) (arg : Option Int) : Option Act :=
   | "gocRegister", _ => some .gocRegister | "gocFetch", _ => some .gocFetch
   | "setupAtomic", _ => some .setupAtomic | "setupTest", _ => some .setupTest | "setupDo", _ => some .setupDo
   | "checkActive", _ => some .checkActive
+  | "nextAtomicErr", _ => some .nextAtomicErr | "createAtomicErr", _ => some .createAtomicErr
+  | "poll", _ => some .poll
   | "nextAtomic", _ => some .nextAtomic | "nextLatest", _ => some .nextLatest | "nextStatus", _ => some .nextStatus
   | "createAtomic", _ => some .createAtomic | "ctCheck", _ => some .ctCheck | "ctNew", _ => some .ctNew
   | "ctAppend", _ => some .ctAppend | "ctPendR", _ => some .ctPendR | "ctPendW", _ => some .ctPendW
@@ -35,7 +37,9 @@ def actOfName (name : String) (arg : Option Int) : Option Act :=
 
 structure Expect where
   t : Option Nat := none
-  fin : Bool := false
+  fin : Bool := false          -- the generator returned (budget / end_loop / exhausted proposer)
+  crash : Bool := false        -- the proposer raised a transient error: the worker left pg.sample
+  snap : Option J := none      -- what poll_result(name) / the algorithm show at this point
 
 def parseAct (j : J) : Option (Nat × Act × Expect) := do
   let xs ← j.asArr?
@@ -49,7 +53,8 @@ def parseAct (j : J) : Option (Nat × Act × Expect) := do
     let ex : Expect := match rest.getLast? with
       | some (.obj kvs) =>
         let o := J.obj kvs
-        { t := o.getNat? "t", fin := (o.getBool? "fin").getD false }
+        { t := o.getNat? "t", fin := (o.getBool? "fin").getD false,
+          crash := (o.getBool? "crash").getD false, snap := o.get? "snap" }
       | _ => {}
     let a ← actOfName name arg
     pure (w, a, ex)
@@ -67,7 +72,8 @@ def cfgOfJ (j : J) : LockCfg :=
     addMeasurementAtomic := g "addMeasurementAtomic" cfgNow.addMeasurementAtomic
     generatorCountersAtomic := g "generatorCountersAtomic" cfgNow.generatorCountersAtomic
     evolutionProposeAtomic := g "evolutionProposeAtomic" cfgNow.evolutionProposeAtomic
-    evolutionFeedbackAtomic := g "evolutionFeedbackAtomic" cfgNow.evolutionFeedbackAtomic }
+    evolutionFeedbackAtomic := g "evolutionFeedbackAtomic" cfgNow.evolutionFeedbackAtomic
+    proposeBeforeBookkeeping := g "proposeBeforeBookkeeping" cfgNow.proposeBeforeBookkeeping }
 
 def cfgToJ (c : LockCfg) : J :=
   .obj [("getOrCreateAtomic", .bool c.getOrCreateAtomic), ("algoSetupAtomic", .bool c.algoSetupAtomic),
@@ -78,7 +84,8 @@ def cfgToJ (c : LockCfg) : J :=
         ("addMeasurementAtomic", .bool c.addMeasurementAtomic),
         ("generatorCountersAtomic", .bool c.generatorCountersAtomic),
         ("evolutionProposeAtomic", .bool c.evolutionProposeAtomic),
-        ("evolutionFeedbackAtomic", .bool c.evolutionFeedbackAtomic)]
+        ("evolutionFeedbackAtomic", .bool c.evolutionFeedbackAtomic),
+        ("proposeBeforeBookkeeping", .bool c.proposeBeforeBookkeeping)]
 
 def pcTrial : PC → Option Nat
   | .hold t | .amOk t | .doneOk t | .doneFin t | .doneFb t | .doneFbW t | .doneCp t | .skipOk t
@@ -86,12 +93,27 @@ def pcTrial : PC → Option Nat
   | .ctAppend t | .ctPendR t | .ctPendW t | .ctLatest t => some t
   | _ => none
 
+/-- Public snapshot of the registered study and the algorithm's counters:
+[[ [id, completed, infeasible, final|null] … ], PENDING, COMPLETED, infeasible, best|null, proposals, feedbacks]. -/
+def snapJ (s : State) : J :=
+  match s.registry.bind (s.studies[·]?) with
+  | none => .null
+  | some st =>
+    .arr [.arr (st.trials.map fun t => J.arr [.int t.id, .bool t.completed, .bool t.infeasible, J.ofOptInt t.final]),
+          .int st.numPending, .int st.numCompleted, .int st.numInfeasible,
+          (match st.best with | some b => J.int b | none => J.null),
+          .int s.algo.numProposals, .int s.algo.numFeedbacks]
+
 def expectOk (s : State) (w : Nat) (ex : Expect) : Bool :=
   let pc := (s.workers w).pc
   (match ex.t with
    | some t => pcTrial pc == some t
    | none => true) &&
-  (if ex.fin then pc == .finished else true)
+  (if ex.fin then pc == .finished || pc == .exhausted else true) &&
+  (if ex.crash then pc == .crashed else true) &&
+  (match ex.snap with
+   | some j => j == snapJ s
+   | none => true)
 
 def optNatJ : Option Nat → J
   | some n => .int n
@@ -140,10 +162,11 @@ def handle (j : J) : J :=
       | none => bad "acts"
       | some as =>
         let maxT := j.getNat? "max"
+        let space := j.getNat? "space"
         let cfg := match j.get? "cfg" with
           | some (.obj kvs) => cfgOfJ (.obj kvs)
           | _ => cfgNow
-        let s0 := init n (fun i => groups.getD i 0) maxT
+        let s0 := init n (fun i => groups.getD i 0) maxT space
         let (s, err) := runLog cfg s0 0 as
         match err with
         | none => .obj [("accepted", .bool true), ("at", .null), ("state", stateJ s)]
